@@ -540,8 +540,35 @@ def ref_acl_match(acl, r):
     if ty == "method":
         if not re.fullmatch(r"[A-Z][A-Z_-]*", r["method"]):
             raise NonCanonical("request method spelling")
+        if METHOD_MODE[0] == "prefix":
+            return any(prefix_reading(v) == r["method"] for v in vals)
         return r["method"] in vals
     raise NonCanonical(ty)
+
+
+# what squid's registered method names are (only used to *recognise* the known finding C45-method-acl-prefix: the reference itself
+# compares method names for equality)
+REGISTERED = ["GET", "POST", "PUT", "HEAD", "CONNECT", "TRACE", "OPTIONS", "DELETE", "LINK", "UNLINK", "CHECKOUT", "CHECKIN", "UNCHECKOUT",
+              "MKWORKSPACE", "VERSION-CONTROL", "REPORT", "UPDATE", "LABEL", "MERGE", "BASELINE-CONTROL", "MKACTIVITY", "PROPFIND",
+              "PROPPATCH", "MKCOL", "COPY", "MOVE", "LOCK", "UNLOCK", "SEARCH", "PRI", "PURGE"]
+METHOD_MODE = ["exact"]
+
+
+def prefix_reading(v):
+    for m in REGISTERED:
+        if m.startswith(v):
+            return m
+    return v
+
+
+def has_prefix_value(conf):
+    for l in conf:
+        w = l.split()
+        if len(w) > 3 and w[0] == "acl" and w[2] == "method":
+            for v in w[3:]:
+                if v not in REGISTERED and prefix_reading(v) != v:
+                    return True
+    return False
 
 
 def ref_allowed(acls, rules, r):
@@ -615,7 +642,19 @@ def tag(line, impl, model):
 
 
 def classify(line, impl, why):
-    return None
+    """C45-method-acl-prefix: the section has a method value that is a proper prefix of a registered method name and the failure
+    disappears when the reference reads such a value the way squid does (nothing else may be wrong with the observation)"""
+    p = H.parse_line(line)
+    if p is None or not why or not why.startswith("reference "):
+        return None
+    if not has_prefix_value(p[0]):
+        return None
+    METHOD_MODE[0] = "prefix"
+    try:
+        again = oracle(line, impl)
+    finally:
+        METHOD_MODE[0] = "exact"
+    return "C45-method-acl-prefix" if again is None else None
 
 
 def shrink(line):
